@@ -490,6 +490,47 @@ def _ep_operand(prog):
     return ep_operand(prog)
 
 
+def concl_key(prog: Program) -> RuleResult:
+    """A selector remembers for which bindings it produced which conclusions, so that the same conclusion is not applied twice for one
+    binding.  'The same binding' has to mean the values of everything the conclusion is made from: an expression below it that picks an
+    element (flatten(box.parts), an index, a call) has a value of its own in the bindings.  A key made from the variables at the leaves only
+    cannot tell two elements of one box apart: the second one's branch is dropped."""
+    r = RuleResult("CONCL-KEY", "the memory of produced conclusions is keyed by every bound expression below the conclusion", floor=1)
+    cs = prog.cls("conclusion_selector.ConclusionSelector")
+    f = cs.methods.get("update_conclusion")
+    if f is None:
+        raise AnalysisError("CONCL-KEY: ConclusionSelector.update_conclusion vanished")
+    # the set of ids the bindings are projected on: <bindings>.items() ... if k in S
+    sets = []
+    for x in walk_local(f.node):
+        if isinstance(x, ast.comprehension) and src(x.iter).endswith(".items()"):
+            for t in x.ifs:
+                for c in [y for y in ast.walk(t) if isinstance(y, ast.Compare) and isinstance(y.ops[0], ast.In) and isinstance(y.comparators[0], ast.Name)]:
+                    sets.append(c.comparators[0].id)
+    if not sets:
+        raise AnalysisError("CONCL-KEY: update_conclusion no longer projects the bindings on a set of ids")
+    S = sets[0]
+    srcs = []
+    for x in walk_local(f.node):
+        tg = x.targets[0] if isinstance(x, ast.Assign) and len(x.targets) == 1 else x.target if isinstance(x, (ast.AnnAssign, ast.AugAssign)) else None
+        if isinstance(tg, ast.Name) and tg.id == S and getattr(x, "value", None) is not None:
+            srcs.append(x.value)
+        if isinstance(x, ast.Call) and isinstance(x.func, ast.Attribute) and x.func.attr in ("update", "add") and isinstance(x.func.value, ast.Name) and x.func.value.id == S:
+            srcs += list(x.args)
+    # one level of locals feeding the set
+    names = {y.id for e in srcs for y in ast.walk(e) if isinstance(y, ast.Name)}
+    for x in walk_local(f.node):
+        if isinstance(x, ast.Assign) and len(x.targets) == 1 and isinstance(x.targets[0], ast.Name) and x.targets[0].id in names:
+            srcs.append(x.value)
+    attrs = {y.attr for e in srcs for y in ast.walk(e) if isinstance(y, ast.Attribute)}
+    whole = attrs & {"_descendants_", "_all_nodes_"}
+    leaves = attrs & {"_unique_variables_", "_all_variable_instances_"}
+    r.check(bool(whole) and not (leaves and not whole), f"{f.short}#keyed-by-everything-below", site(f), f"ids from {sorted(whole | leaves)}", "the ids are those of every expression below the conclusions",
+            f"the key is built from {sorted(leaves) or 'something else than the expressions below the conclusion'} - the variables at the leaves: two elements that flatten() picks from one object "
+            "give the same key, the second element's conclusion is dropped and the first one's is applied again")
+    return r
+
+
 def _cond_fold(prog):
     from .c01 import cond_fold
 
@@ -517,7 +558,7 @@ def run(prog: Program, tier: str) -> List[RuleResult]:
             # refinement(...) / alternative(...) / next_rule(...) fold the conditions of a branch like and_(...) does: none is dropped for being False
             guard(lambda: _cond_fold(prog)),
             # the surgery finds the operand that held the old node by identity
-            guard(lambda: expr_identity(prog)), guard(lambda: _ep_operand(prog))]
+            guard(lambda: expr_identity(prog)), guard(lambda: _ep_operand(prog)), guard(lambda: concl_key(prog))]
 
 
 NODE_FIELDS = ("left", "right", "_parent_", "_child_", "variable", "condition", "_var_", "_conditions_root_", "_root_")
